@@ -2,6 +2,13 @@
 import json
 
 CLAIMED = {
+    "C04": {
+        "level": "exploration",
+        "text": "Seeded search over multisets of flag vectors delivered as permuted / duplicated / regrouped message sequences through all three aggregation entry points, with adversarial bytes beneath masks (explicit and via the dirty allocator); every aggregate is compared with a pointwise precedence-join model and all deliveries of one multiset with each other. Sampling, not proof.",
+        "ref": "DESIGN.md section 3 (C04)",
+        "note": "Trusts the join model (rank 9<2<1<3<4 over unmasked flag values, 9 when none); inputs are equal-length 1-d numpy / masked arrays.",
+        "technique": "deterministic simulation: seeded delivery permutations/duplications/regroupings into the aggregation merge, adversarial bytes under masks via dirty allocator, join-model oracle",
+    },
     "C06": {
         "level": "exploration",
         "text": "Seeded search over message histories (hand-built and stream-produced ContextResults over disjoint window layouts) delivered in several seeded orders through a lazy iterator to both collectors under a dirty allocator; every collected array is compared row by row with a map model, the two forms with each other and all orders with each other. Sampling, not proof.",
